@@ -5,7 +5,7 @@ from ..storecheck import HistGen, encode_event
 from ..gen import AUTHORS
 
 THEOREMS = ['reachable_inv', 'store_read_back', 'read_back_forever', 'by_id_read_back', 'offsets_distinct', 'new_offset_fresh', 'reopen_reads',
-            'delineate_ignores_what_follows', 'delineate_length_any_total']
+            'delineate_ignores_what_follows', 'delineate_length_any_total', 'map_store', 'map_reopen']
 
 
 def far_ends(c, runner):
@@ -47,4 +47,4 @@ def far_ends(c, runner):
 
 
 def run():
-    run_store('C04', THEOREMS, """Focus: event sizes from 0 bytes to several map chunks (the debug build grows the map file every 2048 bytes), reopen in between; oracle: every offset ever returned and every retrievable id reads back the exact bytes that were submitted; offsets as the specification predicts (8-aligned, increasing, never reused). Plus: Event::delineate (the length-prefixed cut on read) on slices that continue for 0 bytes .. several times 4 GiB behind the event. non-trivial = distinct history step whose battery was compared.""", {'reply', 'live', 'bytes'}, relevant={'STO', 'OPN', 'GID', 'OFF', 'HAS'}, extra=far_ends)
+    run_store('C04', THEOREMS, """Focus: event sizes from 0 bytes to several map chunks (the debug build grows the map file every 2048 bytes), reopen in between; oracle: every offset ever returned and every retrievable id reads back the exact bytes that were submitted; offsets as the specification predicts (8-aligned, increasing, never reused). Plus: Event::delineate (the length-prefixed cut on read) on slices that continue for 0 bytes .. several times 4 GiB behind the event. non-trivial = distinct history step whose battery was compared.""", {'reply', 'live', 'bytes'}, relevant={'STO', 'OPN', 'GID', 'OFF', 'HAS', 'MLN'}, extra=far_ends)
